@@ -757,6 +757,8 @@ def show(e, depth=0):
     if k == 'const':
         if e[2]:
             return short(e[2], 1)
+        if isinstance(e[1], dict) and 'static' in e[1]:
+            return short(e[1]['static'], 1)
         return repr(e[1]) if not isinstance(e[1], dict) else json.dumps(e[1])
     if k == 'fnref':
         return 'fn:' + short(e[1])
@@ -871,6 +873,8 @@ def fold(e):
     not constant."""
     k = e[0]
     if k == 'const':
+        if isinstance(e[1], dict) and 'static' in e[1]:
+            return e[1].get('val')
         return e[1] if isinstance(e[1], (int, bool)) else None
     if k == 'cast':
         return fold(e[1])
